@@ -75,7 +75,7 @@ def run(chk):
                  code, want, node=over)
     # R1 (inlined through the call)
     sig = {"self.assorter.overstatement": [a.arg for a in over.args.args][1:]}
-    tx_inline = {"self.assorter.overstatement": over}
+    tx_inline = {"self.assorter.overstatement": over, "self.make_overstatement": mo}  # (B may be written as make_overstatement(omega))
     code_b, _ = spec.term(ba, inline=tx_inline, boolean=BOOL_FLAGS)
     want_b, _ = spec.spec_term(SPEC_B, boolean=BOOL_FLAGS)
     spec.compare(chk, "C03.R1", W("Assertion.overstatement_assorter"), "form-of-B",
